@@ -7,6 +7,15 @@ import MlVerif.Lemmas.Flow
 namespace MlVerif.Lifecycle
 open MlVerif.Flow
 
+/-- membership in the duplicate-free union used as join -/
+theorem mem_union_right {a b : List Nat} {x : Nat} (h : x ∈ b) :
+    x ∈ a ++ b.filter (fun v => !a.contains v) := by
+  by_cases ha : x ∈ a
+  · exact List.mem_append_left _ ha
+  · apply List.mem_append_right
+    simp only [List.mem_filter, Bool.not_eq_true', List.contains_eq_mem, decide_eq_false_iff_not]
+    exact ⟨h, ha⟩
+
 /-! ## 1. ParamSafe -/
 namespace ParamSafe
 
@@ -20,7 +29,7 @@ theorem sound (σ0 : Nat → Nat) : Sound sem dom (Rel σ0) where
     simp only [dom, List.mem_filter] at hm
     exact hm.1
   join_r a b s h := by
-    refine ⟨fun k hk => h.1 k (fun hm => hk (List.mem_append_right _ hm)), fun v k hm => h.2 v k ?_⟩
+    refine ⟨fun k hk => h.1 k (fun hm => hk (mem_union_right hm)), fun v k hm => h.2 v k ?_⟩
     simp only [dom, List.mem_filter, List.contains_iff_mem] at hm
     exact hm.2
   le_sound a b s hle h := by
@@ -97,11 +106,11 @@ theorem sound (σ0 : Nat → Nat) : Sound sem dom (Rel σ0) where
 /-- **Exception safety of hyper-parameters.**  If the analysis accepts a method body, then
 for every execution — every branch, every iteration count, an exception raised by ANY call —
 the hyper-parameters at exit are exactly those at entry. -/
-theorem params_restored (p : Prog Act) (hsafe : exitsGood good (analyze dom p entry) = true)
+theorem params_restored (p : Prog Act) (hsafe : exitsGood (fun _ => good) (analyze dom p entry) = true)
     (o : Oracle) (s : St) : ∀ k, (exec sem p o s).2.1.params k = s.params k := by
   have hrel : Rel s.params entry s := ⟨fun _ _ => rfl, fun _ _ hm => by simp [entry] at hm⟩
-  refine exits_good_sound (sound s.params) good (fun s' => ∀ k, s'.params k = s.params k) ?_ p entry s o hrel hsafe
-  intro d s' hg hr k
+  refine exits_good_sound (sound s.params) (fun _ => good) (fun _ s' => ∀ k, s'.params k = s.params k) ?_ p entry s o hrel hsafe
+  intro _ d s' hg hr k
   apply hr.1
   simp only [good, List.isEmpty_iff] at hg
   simp [hg]
@@ -118,7 +127,7 @@ def Rel (m : Nat) (h0 : Nat → Nat) (d : Abs) (s : St) : Prop :=
 
 theorem sound (m : Nat) (h0 : Nat → Nat) : Sound sem dom (Rel m h0) where
   join_l a b s h := ⟨h.1, h.2.1, fun v hv => h.2.2 v (fun hm => hv (List.mem_append_left _ hm))⟩
-  join_r a b s h := ⟨h.1, h.2.1, fun v hv => h.2.2 v (fun hm => hv (List.mem_append_right _ hm))⟩
+  join_r a b s h := ⟨h.1, h.2.1, fun v hv => h.2.2 v (fun hm => hv (mem_union_right hm))⟩
   le_sound a b s hle h := by
     simp only [dom, List.all_eq_true, List.contains_iff_mem] at hle
     exact ⟨h.1, h.2.1, fun v hv => h.2.2 v (fun hm => hv (hle v hm))⟩
@@ -195,13 +204,13 @@ caller's memory at entry (the array arguments and whatever aliases them).  If th
 accepts the body, then for every execution, however it ends, every location of the caller's
 memory holds what it held at entry. -/
 theorem caller_memory_untouched (p : Prog Act) (borrowed : List Nat)
-    (hok : exitsGood (fun _ => true) (analyze dom p borrowed) = true)
+    (hok : exitsGood (fun _ _ => true) (analyze dom p borrowed) = true)
     (m : Nat) (o : Oracle) (s : St) (hnext : m ≤ s.next)
     (henv : ∀ v, v ∉ borrowed → m ≤ s.env v) :
     ∀ l, l < m → (exec sem p o s).2.1.heap l = s.heap l := by
   have hrel : Rel m s.heap borrowed s := ⟨fun _ _ => rfl, hnext, henv⟩
-  exact exits_good_sound (sound m s.heap) (fun _ => true) (fun s' => ∀ l, l < m → s'.heap l = s.heap l)
-    (fun d s' _ hr => hr.1) p borrowed s o hrel hok
+  exact exits_good_sound (sound m s.heap) (fun _ _ => true) (fun _ s' => ∀ l, l < m → s'.heap l = s.heap l)
+    (fun _ d s' _ hr => hr.1) p borrowed s o hrel hok
 
 end Owner
 
@@ -264,21 +273,31 @@ theorem sound : Sound sem dom Rel where
     | mutate _ => exact h
   assume_sound c d n s _ h := h
 
+/-- what is demanded of each kind of exit: a fit that RAISES need not have rewritten anything
+(it still must not have read anything stale); every other exit must have rewritten all of `required` -/
+def goodAt (required : List Nat) (out : Outcome) (d : Abs) : Bool :=
+  out == .exc || good required d
+
 /-- **No leak from an earlier fit.**  Start `fit` in ANY state left by earlier calls (every
 attribute tainted "stale").  If the analysis accepts the body with `required` = the attributes
-observers read, then for every execution: no stale value was ever read (`leak = false`, so
-everything computed is a function of this call's inputs only) and at exit every required
-attribute is fresh. -/
+observers read or lazily write, then for every execution: no stale value was ever read
+(`leak = false`: everything computed is a function of this call's inputs only), and unless fit
+raised, at exit every required attribute is fresh. -/
 theorem nothing_stale (p : Prog Act) (required : List Nat)
-    (hok : exitsGood (good required) (analyze dom p []) = true)
+    (hok : exitsGood (goodAt required) (analyze dom p []) = true)
     (o : Oracle) (s : St) (hleak : s.leak = false) :
-    (exec sem p o s).2.1.leak = false ∧ ∀ a, a ∈ required → ((exec sem p o s).2.1.attrs a).2 = false := by
+    (exec sem p o s).2.1.leak = false ∧
+    ((exec sem p o s).1 ≠ .exc → ∀ a, a ∈ required → ((exec sem p o s).2.1.attrs a).2 = false) := by
   have hrel : Rel [] s := ⟨hleak, fun a ha => by simp at ha⟩
-  refine exits_good_sound sound (good required)
-    (fun s' => s'.leak = false ∧ ∀ a, a ∈ required → (s'.attrs a).2 = false) ?_ p [] s o hrel hok
-  intro d s' hg hr
-  simp only [good, List.all_eq_true, List.contains_iff_mem] at hg
-  exact ⟨hr.1, fun a ha => hr.2 a (hg a ha)⟩
+  refine exits_good_sound sound (goodAt required)
+    (fun out s' => s'.leak = false ∧ (out ≠ .exc → ∀ a, a ∈ required → (s'.attrs a).2 = false)) ?_ p [] s o hrel hok
+  intro out d s' hg hr
+  refine ⟨hr.1, fun hne a ha => ?_⟩
+  simp only [goodAt, Bool.or_eq_true, beq_iff_eq] at hg
+  rcases hg with hg | hg
+  · exact absurd hg hne
+  · simp only [good, List.all_eq_true, List.contains_iff_mem] at hg
+    exact hr.2 a (hg a ha)
 
 end Fresh
 
